@@ -13,6 +13,22 @@ structure St where
 def step (st : St) (line : String) : St × String :=
   match (line.splitOn " ").filter (· ≠ "") with
   | "idx" :: cmd :: args => let (s, o) := stepIdx st.idx cmd args; ({ st with idx := s }, o)
+  | "srv" :: "q" :: args =>
+    -- one hostile query (no group-by) against the current index: `Z` = query without expr
+    match st.idx.ix with
+    | none => (st, "bad-op")
+    | some ix =>
+      let w : Option (Option WExpr) := match args with
+        | ["Z"] => some none
+        | _ => match parseWExpr args with
+          | some (e, []) => some (some e)
+          | _ => none
+      match w with
+      | none => (st, "bad-op")
+      | some w =>
+        match (match w with | none => none | some w => w.complete) with
+        | none => (st, "err")
+        | some e => (st, fmtResult (executeFast ix ⟨e, []⟩))
   | "lru" :: args => (st, stepLru args)
   | "qp" :: cmd :: args => (st, stepParse cmd args)
   | _ => (st, "bad-op")
